@@ -1,15 +1,15 @@
-SPECIFICATION MCSpec
+SPECIFICATION ShapeSpec
 CONSTANTS
-  Actor = {"a", "b", "c"}
+  Actor = {"a", "b", "c", "e"}
   Creator = "a"
-  Initial <- InitialABC
-  Kinds = {"add", "promote", "demote"}
-  AccessArgs <- ArgsCond
-  Replica = {r1, r2}
-  MaxOps = 3
+  Initial <- InitialACb
+  Kinds = {"add", "remove", "promote", "demote"}
+  AccessArgs <- ArgsPRM
+  Replica = {r1}
+  MaxOps = 6
   MaxRejected = 0
   ShapeAttempts = FALSE
-  ShapeTail = "none"
+  ShapeTail = "join2"
   Defect_TieBreakByPartialCmp = FALSE
   Defect_NoopModifyUnchecked = FALSE
   Defect_RecreateAccepted = FALSE
@@ -17,4 +17,4 @@ INVARIANTS
   C31_Convergence
   C31_IncrementalEqualsRebuild
   C31_VerdictsAgree
-SYMMETRY ReplicaSymmetry
+CHECK_DEADLOCK FALSE
